@@ -602,6 +602,8 @@ func init() {
 			onceRules(c)
 			closedGuards(c)
 			channelClose(c)
+			subscribeCancelContext(c) // cancel must release a publisher blocked on the subscription (or Publish, and with it the watcher's Unsubscribe, never return)
+			getPerCallContext(c)
 			waitCond(c)
 			cleanupLogic(c) // the cleaner repeats a pass while it reports a change, holding the lock Close needs: it must make progress
 			out := c.sel(func(o *an.Oblig) bool {
@@ -641,4 +643,46 @@ func init() {
 			floorKey("ensure re-checks", 6, "lazy initialisation of"),
 		},
 	})
+}
+
+// getPerCallContext: every blocking consumer.Get hands getAsync a context of its own that is cancelled when Get
+// returns. getAsync combines it with the buffer's and the consumer's contexts; the hooks CombineContext registers on
+// those long-lived contexts are released only when that combined context is cancelled - without the per-call cancel
+// each Get that had to wait leaves two registrations (and, for a custom context, a goroutine) behind until the buffer
+// is closed.
+func getPerCallContext(c *Ctx) {
+	P := c.P
+	q := c.F("(*consumer).Get")
+	if !q.ok() {
+		return
+	}
+	gas := an.AllInstrs(q.fn, func(in ssa.Instruction) bool {
+		cc := an.CallCommonOf(in)
+		return cc != nil && cc.IsInvoke() && cc.Method.Name() == "getAsync"
+	})
+	if !q.need(gas, "REL", "producer.getAsync call") {
+		return
+	}
+	wcs := P.CallsTo(q.fn, "context.WithCancel")
+	ok := false
+	det := "getAsync is not given a context derived for this call and cancelled by a defer"
+	for _, w := range wcs {
+		derived, cancel := resultOf(w, 0), resultOf(w, 1)
+		arg := callArg(gas[0], 0)
+		same := arg == derived
+		if !same {
+			if rv, okr := P.ReachingStore(arg); okr {
+				same = rv == derived
+			}
+		}
+		if !same || cancel == nil {
+			continue
+		}
+		for _, d := range an.AllInstrs(q.fn, func(in ssa.Instruction) bool { _, isD := in.(*ssa.Defer); return isD }) {
+			if d.(*ssa.Defer).Call.Value == cancel && P.Before(q.fn, an.Is(d), gas[0]) && !P.InCycle(d) {
+				ok, det = true, "ctx, cancel := WithCancel(ctx); defer cancel() dominates getAsync(ctx, ...)"
+			}
+		}
+	}
+	q.add("REL", "each Get releases what it registered on the long-lived contexts", ok, det, gas[0])
 }
